@@ -33,7 +33,7 @@ func init() {
 		Replay: replay,
 		Assumptions: []string{
 			"tags are read from the top parent's values (its values.yaml or user values), as documented; `tags` tables inside subchart values.yaml files are not generated",
-			"the 'parent's effective values' a condition is resolved in are computed with every declared dependency present (so a dependency's own default for `<name>.enabled` counts)",
+			"defaults of the keys a condition refers to are written in the parent chart's values.yaml (its section for the dependency, its own global table), never in the dependency's own values.yaml: the statement does not say whether a dependency's own default for `<name>.enabled` is part of the parent's effective values (Helm counts it except for aliased dependencies below the first level)",
 			"no type conflicts between sources (a key is a table everywhere or a scalar everywhere); no null values; value layering as such belongs to C04",
 			"an empty table and an absent key are identified when comparing .Values (Helm materialises `global: {}` and `<sub>: {}`)",
 			"charts are built in memory (chart.Chart with AddDependency), as the chart loader would produce them; import-values is not used",
